@@ -118,8 +118,8 @@ PROPS = {
         "explanation": "",
     },
     "C16": {
-        "modules": ["contracts.c16_timeouts", "contracts.dispatcher_units", "contracts.worker_units", "contracts.server_units"],
-        "unit_filter_prefix": ["StreamIO", "Server.pasv.<locals>", "Server.epsv.<locals>", "Server.dispatcher/set-up", "retr_worker@", "stor_worker@", "list_worker@", "mlsd_worker@", "Server."],
+        "modules": ["contracts.c16_timeouts", "contracts.dispatcher_units", "contracts.worker_units", "contracts.server_units", "contracts.c15_throttle"],
+        "unit_filter_prefix": ["ThrottleStreamIO.", "StreamIO", "Server.pasv.<locals>", "Server.epsv.<locals>", "Server.dispatcher/set-up", "retr_worker@", "stor_worker@", "list_worker@", "mlsd_worker@", "Server."],
         "level": "proof",
         "trusted_base": [T_PY, T_ENGINE, T_SOLVER, T_AIO, T_CONN],
         "assumptions": [
